@@ -143,7 +143,11 @@ fn run_shape<OC: GenericConfig<D, F = F>>(s: &Value, selftest_all: bool) -> Vec<
                         if got == Some(zeros) {
                             cases.push((p, own_vd.clone(), json!({"pow_witness": w, "leading_zeros": zeros, "pow_bits": bits})));
                         } else {
-                            out.push(json!({"id": id, "class": class, "note": "the re-proved transcript differs", "got": got, "want": zeros}));
+                            out.push(json!({"id": id, "class": class, "note": "the re-proved transcript differs", "got": got, "want": zeros,
+                                "same_wires_cap": p.proof.wires_cap == honest.proof.wires_cap, "same_zs_cap": p.proof.plonk_zs_partial_products_cap == honest.proof.plonk_zs_partial_products_cap,
+                                "same_quot_cap": p.proof.quotient_polys_cap == honest.proof.quotient_polys_cap, "same_openings": p.proof.openings == honest.proof.openings,
+                                "same_final": p.proof.opening_proof.final_poly == honest.proof.opening_proof.final_poly,
+                                "same_pis": p.public_inputs == honest.public_inputs, "w_used": p.proof.opening_proof.pow_witness.to_canonical_u64(), "w": w}));
                         }
                     }
                 }
